@@ -9,7 +9,7 @@ use serde_json::{json, Value};
 const ENTITY_F: &str = "\
 use work.c20_pkg.all ;
 entity c20_f is
-  port ( p0 : in bit ; p1 : in integer range 0 to 3 ; p2 : in bit_vector ( 3 downto 0 ) ; q0 : out bit ) ;
+  port ( p0 : in bit ; p1 : in integer range 0 to 3 ; p2 : in bit_vector ( 3 downto 0 ) ; q0 : out bit ; q1 : out bit_vector ( 3 downto 0 ) ; q2 : out integer range 0 to 3 ; io0 : inout bit ; bf0 : buffer bit ; pr0 : in rec_t ; qr0 : out rec_t ; qa0 : out arr_t ; lk0 : linkage bit ) ;
 end entity ;
 ";
 const ARCH_FILES: [&str; 6] = ["l1_f0.vhd", "l1_f1.vhd", "l1_f2.vhd", "l2_f0.vhd", "l2_f1.vhd", "l3_f0.vhd"];
